@@ -1,5 +1,150 @@
-import TuModel.Model.MultiGen
+/-
+  C07 — `MultiTrainDataGenerator` yields every item of every source exactly once, in per-source
+  order, correctly tagged, and terminates; the sequential strategy visits the sources one after
+  another and the interleaved strategy is round robin over the sources that still have items.
+  Model: `Tu.mgRun` (Model/MultiGen.lean); lemmas in Lemmas/MultiGenL*.lean.
+-/
+import TuModel.Lemmas.MultiGenL
+import TuModel.Lemmas.MultiGenSeq
+import TuModel.Lemmas.MultiGenRR
 namespace Tu.C07
-open Tu
-theorem placeholder_total_nil : totalItems [] = 0 := rfl
+open Tu Tu.MultiGenL
+
+/-- consume an output sequence against the sources: every yielded pair `(x, k)` must be the next
+item of source `k`; returns what is left of the sources -/
+def consume : List (List Nat) → List (Nat × Nat) → Option (List (List Nat))
+  | srcs, [] => some srcs
+  | srcs, (x, k) :: out => match srcs.getD k [] with
+    | y :: rest => if x = y then consume (srcs.set k rest) out else none
+    | [] => none
+
+theorem consume_nil (srcs : List (List Nat)) : consume srcs [] = some srcs := by rw [consume]
+
+theorem consume_cons_of (srcs : List (List Nat)) (x k : Nat) (rest : List Nat) (out : List (Nat × Nat))
+    (h : srcs.getD k [] = x :: rest) :
+    consume srcs ((x, k) :: out) = consume (srcs.set k rest) out := by
+  rw [consume, h]; simp
+
+/-- inversion of a successful `consume` step -/
+theorem consume_cons_inv (srcs : List (List Nat)) (x k : Nat) (out : List (Nat × Nat))
+    (left : List (List Nat)) (h : consume srcs ((x, k) :: out) = some left) :
+    ∃ rest, srcs.getD k [] = x :: rest ∧ consume (srcs.set k rest) out = some left := by
+  rw [consume] at h
+  cases hs : srcs.getD k [] with
+  | nil => rw [hs] at h; cases h
+  | cons y rest =>
+    rw [hs] at h
+    by_cases hxy : x = y
+    · subst hxy
+      simp only [if_true] at h
+      exact ⟨rest, rfl, h⟩
+    · simp only [hxy, if_false] at h; cases h
+
+/-- the simulation hypotheses for "the output is a merge of the sources that exhausts them" -/
+theorem sim_merge (s : Strategy) :
+    Sim s (Inv s) (fun g out => ∃ left, consume g.srcs out = some left ∧ ∀ l ∈ left, l = []) where
+  len := fun g h => h.1.1
+  cur := fun g h => h.1.2.1
+  yld := by
+    intro g x rest c hI hsrc
+    refine ⟨Inv_yield s g x rest c hI hsrc, ?_⟩
+    intro out ⟨left, h1, h2⟩
+    exact ⟨left, by rw [consume_cons_of _ _ _ _ _ hsrc]; exact h1, h2⟩
+  mrk := by
+    intro g c hI hsrc hall
+    exact ⟨Inv_mark s g c hI hsrc hall, fun out h => h⟩
+  stop := by
+    intro g hI hsrc hall
+    refine ⟨g.srcs, consume_nil _, ?_⟩
+    rw [all_empty_iff_getD]
+    intro i
+    by_cases hi : g.idx = i
+    · subst hi; exact hsrc
+    · apply hI.1.2.2
+      rw [← marked_getD_ne g i hi]
+      exact (all_id_iff _).mp hall i
+
+/-- **every item exactly once, in per-source order, correctly tagged, and the iteration terminates**:
+for every strategy, every choice stream (random draws) and every non-empty list of sources the
+output is a merge of the sources that exhausts all of them -/
+theorem mgRun_merge (s : Strategy) (srcs : List (List Nat)) (cs : List Nat) (hne : srcs ≠ []) :
+    ∃ left, consume srcs (mgRun s srcs cs) = some left ∧ ∀ l ∈ left, l = [] :=
+  mgDrain_sim (sim_merge s) (totalItems srcs + 1) (MG.init srcs) cs (Inv_init s srcs hne)
+    (Nat.lt_succ_self _)
+
+/-- what `consume` means: the items tagged `k`, in output order, followed by what is left of source `k`, are source `k` -/
+theorem consume_projection (srcs : List (List Nat)) (out : List (Nat × Nat)) (left : List (List Nat))
+    (h : consume srcs out = some left) (k : Nat) :
+    ((out.filter (fun p => p.2 == k)).map (·.1)) ++ left.getD k [] = srcs.getD k [] := by
+  induction out generalizing srcs with
+  | nil =>
+    rw [consume_nil] at h
+    cases h
+    simp
+  | cons p out ih =>
+    obtain ⟨x, k'⟩ := p
+    obtain ⟨rest, hs, hc⟩ := consume_cons_inv srcs x k' out left h
+    have := ih _ hc
+    by_cases hk : k' = k
+    · subst hk
+      have hlt : k' < srcs.length := lt_length_of_getD_ne srcs k' [] (by rw [hs]; simp)
+      rw [getD_set_self _ _ _ _ hlt] at this
+      simp only [List.filter_cons, beq_self_eq_true, if_true, List.map_cons, List.cons_append]
+      rw [this, hs]
+    · rw [getD_set_ne _ _ _ _ _ hk] at this
+      have hb : (k' == k) = false := by simpa using hk
+      simp only [List.filter_cons, hb]
+      exact this
+
+/-- corollary: per-source order and completeness -/
+theorem mgRun_per_source (s : Strategy) (srcs : List (List Nat)) (cs : List Nat) (hne : srcs ≠ []) (k : Nat) :
+    ((mgRun s srcs cs).filter (fun p => p.2 == k)).map (·.1) = srcs.getD k [] := by
+  obtain ⟨left, h1, h2⟩ := mgRun_merge s srcs cs hne
+  have := consume_projection srcs _ left h1 k
+  rw [(all_empty_iff_getD left).mp h2 k, List.append_nil] at this
+  exact this
+
+/-- `consume` preserves the number of items -/
+theorem consume_total (srcs : List (List Nat)) (out : List (Nat × Nat)) (left : List (List Nat))
+    (h : consume srcs out = some left) : out.length + totalItems left = totalItems srcs := by
+  induction out generalizing srcs with
+  | nil =>
+    rw [consume_nil] at h
+    cases h
+    simp
+  | cons p out ih =>
+    obtain ⟨x, k'⟩ := p
+    obtain ⟨rest, hs, hc⟩ := consume_cons_inv srcs x k' out left h
+    have h1 := ih _ hc
+    have h2 := totalItems_set srcs k' x rest hs
+    simp only [List.length_cons]
+    omega
+
+theorem mgRun_length (s : Strategy) (srcs : List (List Nat)) (cs : List Nat) (hne : srcs ≠ []) :
+    (mgRun s srcs cs).length = totalItems srcs := by
+  obtain ⟨left, h1, h2⟩ := mgRun_merge s srcs cs hne
+  have := consume_total srcs _ left h1
+  rw [totalItems_eq_zero left h2] at this
+  omega
+
+/-- sequential visits the sources one after another -/
+theorem sequential_order (srcs : List (List Nat)) (cs : List Nat) (hne : srcs ≠ []) :
+    mgRun .sequential srcs cs = seqSpec srcs :=
+  mgRun_sequential srcs cs hne
+
+/-- interleaved is round robin over the sources that still have items -/
+theorem interleaved_round_robin (srcs : List (List Nat)) (cs : List Nat) (hne : srcs ≠ []) :
+    mgRun .interleaved srcs cs = rrSpec (totalItems srcs + 1) srcs :=
+  mgRun_interleaved srcs cs hne
+
+/-! ### non-vacuity -/
+
+example : mgRun .interleaved [[0,1],[0],[0,1,2]] [] = [(0,0),(0,1),(0,2),(1,0),(1,2),(2,2)] := by decide
+example : mgRun .sequential [[0,1],[],[0,1,2]] [] = [(0,0),(1,0),(0,2),(1,2),(2,2)] := by decide
+example : mgRun .weighted [[0,1],[0],[0,1,2]] [2,0,1,1] = [(0,0),(0,2),(1,0),(0,1),(1,2),(2,2)] := by decide
+example : consume [[0,1],[0],[0,1,2]] [(0,0),(0,2),(1,0),(1,2),(2,2),(0,1)] = some [[],[],[]] := by decide
+example : consume [[0,1],[0]] [(0,0),(0,0)] = none := by decide
+example : consume [[0,1],[0]] [(0,1),(1,0)] = none := by decide
+example : rrSpec 7 [[0,1],[0],[0,1,2]] = [(0,0),(0,1),(0,2),(1,0),(1,2),(2,2)] := by decide
+
 end Tu.C07
